@@ -192,7 +192,7 @@ def rdc_inputs(F, rng, corners, n_rand):
     return sorted(t for t in ts if t.bit_length() <= top)
 
 
-def gen_field(F, rng, tier, exhaustive=False, ext=True, budget=1.0):
+def gen_field(F, rng, tier, exhaustive=False, ext=True, budget=1.0, full_variants=False):
     """All field-level case lines for one field.  exhaustive (tiny worlds): every element for the unary
     operations, corner + random pairs for the binary ones."""
     quick = tier == "quick"
@@ -229,18 +229,20 @@ def gen_field(F, rng, tier, exhaustive=False, ext=True, budget=1.0):
     # ---- unary operations, every variant
     for group in (SQR, INV, SRT, SLV):
         for gi, op in enumerate(group):
-            if exhaustive and (not quick or gi == 0):
-                ins = allel if not quick else rng.sample(allel, nr(6000)) + cs
+            if exhaustive and not quick:
+                ins = allel if (gi == 0 or full_variants) else rng.sample(allel, nr(20000)) + cs
             elif exhaustive:
-                ins = rng.sample(allel, nr(1500)) + cs
+                ins = rng.sample(allel, nr(3000 if gi == 0 else 800)) + cs
             else:
                 ins = cs + [F.rnd(rng) for _ in range(nr(25 if quick else 250))]
             for a in ins:
                 L.append(F.line(op, k % 2, hx(a)))
                 k += 1
     for gi, op in enumerate(TRC):
-        if exhaustive:
-            ins = allel if not quick else rng.sample(allel, nr(3000)) + cs
+        if exhaustive and not quick:
+            ins = allel if (gi == 0 or full_variants) else rng.sample(allel, nr(20000)) + cs
+        elif exhaustive:
+            ins = rng.sample(allel, nr(2000 if gi == 0 else 600)) + cs
         else:
             ins = cs + [F.rnd(rng) for _ in range(nr(25 if quick else 250))]
         for a in ins:
@@ -584,14 +586,99 @@ def mul_cases(cv, rng, quick, scale=1.0):
 # --------------------------------------------------------------------------
 # tiny worlds: GF(2^17), 8-bit digits
 # --------------------------------------------------------------------------
-TINY_POLYS = [("T3", (1 << 17) | (1 << 3) | 1), ("T5", (1 << 17) | (1 << 5) | 1), ("T6", (1 << 17) | (1 << 6) | 1),
-              ("Q4,3,1", (1 << 17) | 0x1b), ("Q12,7,5", (1 << 17) | (1 << 12) | (1 << 7) | (1 << 5) | 1)]
+# trinomials with an odd / even middle exponent, pentanomials with exponents on both sides of a digit boundary,
+# all-odd exponents (the table-free square root) and mixed ones; each is re-checked for irreducibility by the
+# spec (fb_select).  Polynomials with more than three basis elements of trace one are refused by the library.
+TINY_POLYS = ["T3", "T5", "T6", "Q3,2,1", "Q8,7,1", "Q9,5,3", "Q8,3,1", "Q9,7,1"]
+
+
+def poly_of(sel, m=17):
+    es = [int(x) for x in sel[1:].split(",")]
+    f = (1 << m) | 1
+    for e in es:
+        f |= 1 << e
+    return f
 
 
 def tiny_fields():
+    return [BField(sel, 17, poly_of(sel), 8, 3) for sel in TINY_POLYS]
+
+
+# curves over GF(2^17) = GF(2)[x]/(x^17 + x^3 + 1), found offline by point counting; everything about them (G on
+# the curve, n prime, [n]G = O, Hasse, cofactor) is re-checked by the spec (eb_select):
+#   a random curve with Tr(a) = 1: #E = 2 * 65563;  the Koblitz curve E_1: #E = 2 * 65587
+TINY_CURVES = [("T3", 20919, 99867, 65563, 2, 0), ("T3", 1, 1, 65587, 2, 1)]
+TINY_CONF = dict(m=17, w=1, fd=3, wd=4, dep=5, bnbits=32, add=2)
+
+
+def tiny_curves():
     out = []
-    for sel, f in TINY_POLYS:
-        F = BField(sel, 17, f, 8, 3)
-        if F.irreducible():
-            out.append(F)
+    for (psel, a, b, n, h, kbl) in TINY_CURVES:
+        F = BField(psel, 17, poly_of(psel), 8, 3)
+        cv = BCurve("", F, a, b, 0, 0, n, h, kbl, TINY_CONF)
+        # a generator of the subgroup of order n: h times the first point found
+        x = 2
+        while True:
+            x += 1
+            c = F.mul(ERhs(F, a, b, x), F.sqr(F.inv(x)))          # y = x z, z^2 + z = rhs / x^2
+            if F.trace(c):
+                continue
+            z = F.halftrace(c)
+            G = cv.mul(h, (x, F.mul(x, z)))
+            if G is not None and cv.mul(n, G) is None:
+                break
+        cv.gx, cv.gy = G
+        cv.sel = "C%s:%x:%x:%x:%x:%x:%x" % (psel, a, b, G[0], G[1], n, h)
+        F.sel = cv.sel
+        cv.ep.spec = cv.sel
+        cv.name = "y^2+xy=x^3+%xx^2+%x/GF(2^17)[%s](n=%d,h=%d%s)" % (a, b, psel, n, h, ",koblitz" if kbl else "")
+        out.append(cv)
     return out
+
+
+def ERhs(F, a, b, x):
+    x2 = F.sqr(x)
+    return F.mul(x2, x) ^ F.mul(a, x2) ^ b
+
+
+def tiny_scalar_cases(cv, rng, quick, ops=None, count=None):
+    """Tiny world: every routine on a dense / exhaustive set of scalars k in [-2n, 3n] and 2^j(+-1)."""
+    n = cv.n
+    c = cv.sel
+    allk = list(range(-n - 40, 2 * n + 41)) if not quick else None
+    corner = [0, 1, -1, 2, 3, n - 2, n - 1, n, n + 1, 2 * n - 1, 2 * n, 2 * n + 1, -n, -(n + 1), n // 2, (n + 1) // 2]
+    for j in range(1, 18):
+        corner += [(1 << j) - 1, 1 << j, (1 << j) + 1, -((1 << j) + 1)]
+    L = []
+    G = "m1"
+    for op in (ops or (EB_MUL + EB_FIX + ["eb_mul_gen"])):
+        if quick:
+            ks = corner + [rng.randrange(-n, 2 * n) for _ in range(count or 250)]
+        else:
+            ks = corner + (allk if op in ("eb_mul_lwnaf", "eb_mul_rwnaf", "eb_mul_halve") else
+                           [rng.randrange(-n, 2 * n) for _ in range(count or 4000)])
+        pts = [G, "m%x" % rng.randrange(2, n)]
+        for i, k in enumerate(ks):
+            if op == "eb_mul_gen":
+                L.append("%s %s 0 %s" % (c, op, hx(k)))
+            elif op in EB_FIX:
+                L.append("%s %s 0 %s %s" % (c, op, pts[0 if i < len(ks) * 3 // 4 else 1], hx(k)))
+            else:
+                L.append("%s %s %d %s %s" % (c, op, rng.choice([0, 0, 1]), rng.choice(pts + [pts[1]]), hx(k)))
+    # every routine on other points with a corner set of scalars
+    for _ in range(20 if quick else 300):
+        P = "m%x" % rng.randrange(1, n)
+        for op in EB_MUL:
+            L.append("%s %s 0 %s %s" % (c, op, P, hx(rng.choice(corner[:16]))))
+    small = list(range(-n - 2, 2 * n + 3))
+    for op in EB_SIM + ["eb_mul_sim_gen"]:
+        for _ in range(120 if quick else 2500):
+            k, m = rng.choice(small), rng.choice(small)
+            if op == "eb_mul_sim_gen":
+                L.append("%s %s 0 %s m%x %s" % (c, op, hx(k), rng.randrange(1, n), hx(m)))
+            else:
+                mp = rng.randrange(1, n)
+                mq = rng.choice([rng.randrange(1, n), rng.randrange(1, n), mp, n - mp])
+                L.append("%s %s %d m%x %s m%x %s" % (c, op, rng.choice([0, 0, 1, 2]), mp, hx(k), mq, hx(m)))
+    rng.shuffle(L)
+    return L
